@@ -319,6 +319,8 @@ class Lexer():
         self._in_string = None
         # * the starting delimiter, either " or '
         self._in_string_delim = None
+        # * True after a "\z" escape, until the next non-space character
+        self._in_string_skip_space = False
 
         # If inside a multiline comment (else None):
         # * the lines of comment, as an array of str (possibly empty)
@@ -363,6 +365,13 @@ class Lexer():
             while i < len(s):
                 c = s[i:i+1]
 
+                if self._in_string_skip_space:
+                    # After "\z": skip whitespace, including line breaks.
+                    if c in (b' ', b'\t', b'\n', b'\r', b'\f', b'\v'):
+                        i += 1
+                        continue
+                    self._in_string_skip_space = False
+
                 if c == self._in_string_delim:
                     # End string literal.
                     self._tokens.append(
@@ -387,6 +396,10 @@ class Lexer():
                     elif hex_m:
                         c = bytes([int(hex_m.group(0)[1:], 16)])
                         i += len(hex_m.group(0))
+                    elif s[i+1:i+2] == b'z':
+                        self._in_string_skip_space = True
+                        i += 2
+                        continue
                     else:
                         next_c = s[i+1:i+2]
                         if next_c in _STRING_ESCAPES:
